@@ -168,6 +168,21 @@ def w_constructors(ctx, rng, idx):
         call('tt.rand', tt.rand, rows, cols, prop=P, **kw)
         call('tt.uniform', tt.uniform, rows, prop=P, **dict(kw, norm=float(rng.random() * 3 + 0.1)))
     call('tt.uniform', tt.uniform, rows, prop=P)
+    if rng.random() < 0.4:
+        # dimensions / ranks held as narrow NumPy integers (np.int8 ... np.uint16 scalars in a list, or an integer ndarray) whose PRODUCT
+        # exceeds the range of that type although every single value fits; norms held as single-precision scalars (exact values)
+        dd = int(rng.integers(3, 7))
+        big = [int(rng.integers(2, 5)) for _ in range(dd)]
+        t_ = [np.int8, np.uint8, np.int16, np.uint16][int(rng.integers(0, 4))]
+        form = int(rng.integers(0, 3))
+        rows_n = np.array(big, dtype=t_) if form == 0 else [t_(x) for x in big] if form == 1 else list(big)
+        rr = int(rng.integers(2, 5))
+        ranks_n = [rr, t_(rr), [1] + [t_(int(rng.integers(2, 5))) for _ in range(dd - 1)] + [1]][int(rng.integers(0, 3))]
+        nrm = [0.5, 1.0, 2.0, 0.25, 3.0, 1.5][int(rng.integers(0, 6))]
+        nrm = np.float32(nrm) if rng.random() < 0.5 else nrm
+        ctx.describe({'op': 'uniform with narrow NumPy integer dimensions / ranks', 'rows': big, 'dtype': t_.__name__, 'form': form, 'ranks': repr(ranks_n), 'norm': repr(nrm)})
+        call('tt.uniform', tt.uniform, rows_n, prop=P, ranks=ranks_n, norm=nrm, tags=['narrow_integer_types'])
+        call('tt.uniform', tt.uniform, rows_n, prop=P, tags=['narrow_integer_types'])
     call('tt.eye', tt.eye, rows, prop=P)
     inds = [int(rng.integers(0, x)) for x in rows]
     call('tt.unit', tt.unit, rows, inds, prop=P)
